@@ -1,7 +1,7 @@
 PROP = dict(
     id="C14",
     lean_modules=["TongoProofs.C14"],
-    gen=[],
+    gen=["WalletConsts"],
     # the model IS the specification: bodies, envelope, digest, decoder outputs and verifier verdicts are bit-exact
     spec_ops=("m.body", "m.raw", "m.decode", "m.verify", "prim.sha256"),
     rule="every sending version (V3R1, V3R2, V4R1, V4R2, V5Beta, V5R1, HighLoadV2R2) x random Ed25519 keys x workchain / "
@@ -16,6 +16,7 @@ PROP = dict(
          "decoded fields equal the requested ones, over-limit sends refused. "
          "non-trivial = distinct (version, key, message count, seqno, valid-until) case",
     trusted_base=[
+        "translator WalletConsts (harness/cmd/extract, go/ast): DefaultSubWallet, MainnetGlobalID, the v5 opcodes, the action tag, the Version enumeration and maxMessageNumber() literals are re-read from wallet/*.go on every run and stated as decide-d obligations against the model (lean/TongoGen/WalletConsts.lean)",
         "hand model lean/TongoModel/{WalletMsg,CellRead,CellOrd}.lean tied to wallet/*.go, ton/block.go by bit-exact "
         "correspondence of body cell, external message cell, digest, decoder outputs and verdicts on every run",
         "Ed25519 is not re-implemented: the harness computes signatures with crypto/ed25519 on the digest of the signed part "
